@@ -579,7 +579,9 @@ Definition add_summary_table (name src : Z) (gb gbkinds fkinds : list Z) (m : me
                                | None => mkC (fst (fst p)) t (snd p) 0 0 0 [] 0
                                end)
                      (combine (combine (zseq c0 (length gb)) gb) gbkinds) in
-    let fcols := new_columns (c0 + Z.of_nat (length gb)) t fkinds in
+    let fcols := map (fun c => if c_kind c =? K_GROUP      (* 'group' has type RefList:<source table> *)
+                               then mkC (c_id c) t (c_kind c) 0 0 0 [] src else c)
+                     (new_columns (c0 + Z.of_nat (length gb)) t fkinds) in
     let m0 := mkM (m_tables m ++ [mkT t name 0 src 0 0]) (m_columns m ++ gcols ++ fcols)
                   (m_views m) (m_sections m) (m_fields m) (m_tabbar m) (m_pages m) (m_schema m ++ [name]) in
     let '(m1, sraw) := add_section t 0 false m0 in
@@ -711,6 +713,11 @@ Definition step (o : op) (m : meta) : res meta :=
   | ONoMeta => Ok m
   | OUnmodelled => Unmodelled
   end.
+
+(* the two actions that run update_summary_section on sections chosen by the code (doRemoveColumns passes every
+   view section of the summary table, its raw section included) are kept apart: see Props/C09.v *)
+Definition regroups_op (o : op) : bool :=
+  match o with ORegroup _ | ORemoveColumnsG _ _ => true | _ => false end.
 
 Fixpoint steps (os : list op) (m : meta) : res meta :=
   match os with [] => Ok m | o :: t => bind (step o m) (steps t) end.
